@@ -217,6 +217,9 @@ class SidemanticAdapter(BaseAdapter):
         if graph.metrics:
             data["metrics"] = [self._export_metric(metric, graph) for metric in graph.metrics.values()]
 
+        if graph.parameters:
+            data["parameters"] = [self._export_parameter(parameter) for parameter in graph.parameters.values()]
+
         output_path.parent.mkdir(parents=True, exist_ok=True)
 
         with open(output_path, "w") as f:
@@ -556,6 +559,12 @@ class SidemanticAdapter(BaseAdapter):
                     measure_def["non_additive_dimension"] = measure.non_additive_dimension
                 if measure.type:
                     measure_def["type"] = measure.type
+                if measure.fill_nulls_with is not None:
+                    measure_def["fill_nulls_with"] = measure.fill_nulls_with
+                if measure.numerator:
+                    measure_def["numerator"] = measure.numerator
+                if measure.denominator:
+                    measure_def["denominator"] = measure.denominator
                 if measure.base_metric:
                     measure_def["base_metric"] = measure.base_metric
                 if measure.comparison_type:
@@ -593,6 +602,42 @@ class SidemanticAdapter(BaseAdapter):
         if model.default_grain:
             result["default_grain"] = model.default_grain
 
+        # Export pre-aggregations
+        if model.pre_aggregations:
+            result["pre_aggregations"] = []
+            for preagg in model.pre_aggregations:
+                preagg_def = {
+                    "name": preagg.name,
+                    "type": preagg.type,
+                }
+                if preagg.measures:
+                    preagg_def["measures"] = preagg.measures
+                if preagg.dimensions:
+                    preagg_def["dimensions"] = preagg.dimensions
+                if preagg.time_dimension:
+                    preagg_def["time_dimension"] = preagg.time_dimension
+                if preagg.granularity:
+                    preagg_def["granularity"] = preagg.granularity
+                if preagg.partition_granularity:
+                    preagg_def["partition_granularity"] = preagg.partition_granularity
+                if preagg.refresh_key:
+                    refresh_key = preagg.refresh_key
+                    preagg_def["refresh_key"] = {
+                        **({"every": refresh_key.every} if refresh_key.every else {}),
+                        **({"sql": refresh_key.sql} if refresh_key.sql else {}),
+                        **({"incremental": refresh_key.incremental} if refresh_key.incremental else {}),
+                        **({"update_window": refresh_key.update_window} if refresh_key.update_window else {}),
+                    }
+                if not preagg.scheduled_refresh:  # Only export if non-default (False)
+                    preagg_def["scheduled_refresh"] = preagg.scheduled_refresh
+                if preagg.indexes:
+                    preagg_def["indexes"] = preagg.indexes
+                if preagg.build_range_start:
+                    preagg_def["build_range_start"] = preagg.build_range_start
+                if preagg.build_range_end:
+                    preagg_def["build_range_end"] = preagg.build_range_end
+                result["pre_aggregations"].append(preagg_def)
+
         # Export segments
         if model.segments:
             result["segments"] = []
@@ -624,6 +669,10 @@ class SidemanticAdapter(BaseAdapter):
 
         if measure.type:
             result["type"] = measure.type
+        if measure.agg:
+            result["agg"] = measure.agg
+        if measure.fill_nulls_with is not None:
+            result["fill_nulls_with"] = measure.fill_nulls_with
 
         if measure.description:
             result["description"] = measure.description
@@ -664,7 +713,42 @@ class SidemanticAdapter(BaseAdapter):
                     result["metrics"] = list(dependencies)
         if measure.window:
             result["window"] = measure.window
+        if measure.grain_to_date:
+            result["grain_to_date"] = measure.grain_to_date
+        if measure.window_expression:
+            result["window_expression"] = measure.window_expression
+        if measure.window_frame:
+            result["window_frame"] = measure.window_frame
+        if measure.window_order:
+            result["window_order"] = measure.window_order
         if measure.filters:
             result["filters"] = measure.filters
+
+        return result
+
+    def _export_parameter(self, parameter: Parameter) -> dict:
+        """Export parameter to dictionary.
+
+        Args:
+            parameter: Parameter to export
+
+        Returns:
+            Parameter definition dictionary
+        """
+        result = {
+            "name": parameter.name,
+            "type": parameter.type,
+        }
+
+        if parameter.description:
+            result["description"] = parameter.description
+        if parameter.label:
+            result["label"] = parameter.label
+        if parameter.default_value is not None:
+            result["default_value"] = parameter.default_value
+        if parameter.allowed_values:
+            result["allowed_values"] = parameter.allowed_values
+        if parameter.default_to_today:
+            result["default_to_today"] = parameter.default_to_today
 
         return result
